@@ -86,6 +86,9 @@ enum End {
     NoProgress,
     /// stopped because the caller asked for the first N lists only
     Limit,
+    /// aborted by the rewind budget of the verification hook: the lexer re-read more than
+    /// 8 x input length + 64 characters
+    Rereading,
 }
 
 struct Parsed {
@@ -94,6 +97,8 @@ struct Parsed {
     lines_after: Vec<usize>,
     end: End,
     eof_seen: bool,
+    /// characters the lexer moved back over (and read again) during this parse
+    rewound: u64,
 }
 
 fn variant_name(dbg: &str) -> String {
@@ -115,6 +120,8 @@ fn parse_all(text: &str, portable: bool, max_lists: usize) -> Parsed {
         mode.portable = true;
         lexer.set_mode(mode);
     }
+    let _ = yash_env::verif_hooks::take_rewound_chars();
+    yash_env::verif_hooks::set_rewind_budget(8 * text.chars().count() as u64 + 64);
     let mut lists = vec![];
     let mut lines_after = vec![];
     // every successful iteration consumes at least one character (a newline at least)
@@ -132,7 +139,19 @@ fn parse_all(text: &str, portable: bool, max_lists: usize) -> Parsed {
             lexer.flush();
         }
         let mut parser = Parser::new(&mut lexer);
-        match parser.command_line().now_or_never() {
+        let polled = std::panic::catch_unwind(std::panic::AssertUnwindSafe(|| parser.command_line().now_or_never()));
+        let polled = match polled {
+            Ok(p) => p,
+            Err(payload) => {
+                let msg = payload.downcast_ref::<String>().cloned().or_else(|| payload.downcast_ref::<&str>().map(|s| s.to_string())).unwrap_or_default();
+                if msg.contains("rewind budget exceeded") {
+                    break End::Rereading;
+                }
+                yash_env::verif_hooks::set_rewind_budget(u64::MAX);
+                std::panic::resume_unwind(payload);
+            }
+        };
+        match polled {
             None => break End::Blocked,
             Some(Ok(None)) => break End::Eof,
             Some(Ok(Some(list))) => {
@@ -151,7 +170,8 @@ fn parse_all(text: &str, portable: bool, max_lists: usize) -> Parsed {
             }
         }
     };
-    Parsed { lists, lines_after, end, eof_seen: eof.get() }
+    yash_env::verif_hooks::set_rewind_budget(u64::MAX);
+    Parsed { lists, lines_after, end, eof_seen: eof.get(), rewound: yash_env::verif_hooks::take_rewound_chars() }
 }
 
 // ---------------------------------------------------------------------------------------------
@@ -850,6 +870,19 @@ fn check_text(c: &TextCase) -> Outcome {
         End::NoProgress => return Outcome::fail("command_line keeps returning without consuming input (hang)"),
         _ => {}
     }
+    // Re-reading: a parser that backtracks reads some characters again; the total must stay
+    // linear in the input or nested constructs take exponential time (a hang in practice).
+    // Three levels of `$((` that turn out to be command substitutions already cost 7 passes.
+    let nchars = text.chars().count() as u64;
+    if p.end == End::Rereading || p.rewound > 8 * nchars + 64 {
+        let opens = text.matches("$((").count();
+        let closers = text.matches(')').count();
+        let key = if opens >= 4 && closers >= 2 * opens { " [suspected=parser-exponential-arith-fallback]" } else { "" };
+        return Outcome::fail(format!(
+            "totality: the lexer moved back over {} characters while parsing an input of {nchars} characters - re-reading grows faster than the input (exponential time for nested constructs){key}",
+            p.rewound
+        ));
+    }
     let mut out_classes: Vec<&'static str> = vec![];
     let mut feats_all = 0u32;
     let mut norms: Vec<(String, u32)> = vec![];
@@ -989,6 +1022,7 @@ fn known_by_message(msg: &str) -> Option<&'static str> {
         "backquote-escape-line-continuation",
         "arith-fallback-at-eof",
         "display-cmdsubst-double-paren",
+        "parser-exponential-arith-fallback",
     ] {
         if msg.contains(&format!("[suspected={key}]")) {
             return Some(key);
@@ -2352,6 +2386,10 @@ fn arb_fn() -> impl Strategy<Value = FnCase> {
 
 /// Hand-picked texts around the places where printing has to disambiguate.
 const CATALOGUE_TEXTS: &[&str] = &[
+    // nested `$((` that turn out to be command substitutions: each level is parsed twice
+    ": $(($(($(($(($(($(( : ) ) ) ) ) ) ) ) ) ) ) )\n",
+    // the same nest left unclosed ends with an error at once (no re-reading)
+    ": $(($(($(($(($(($(($(($(($(($(($(($(( 1",
     "echo $'\\c\\\\'",
     "echo $'\\cA\\c?\\c@\\x41\\101\\u00e9\\U0001F600\\e\\E\\?'",
     "echo $'\\x411' $'\\u00E91' $'\\0011'",
